@@ -273,15 +273,18 @@ def conversion(ctx):
 
 
 def families(ctx):
-    from . import c14_extra, c14_query
-    return [(fn.__name__, (lambda fn=fn: fn(ctx))) for fn in (response_new, reason, conversion, policy_set_view)] + c14_extra.families(ctx) + c14_query.families(ctx)
+    from . import c14_extra, c14_query, c14_store
+    return [(fn.__name__, (lambda fn=fn: fn(ctx))) for fn in (response_new, reason, conversion, policy_set_view)] + c14_extra.families(ctx) + c14_query.families(ctx) + c14_store.families(ctx)
 
 
 def run(ctx):
     ctx.run_families(families(ctx))
-    from . import c14_query
+    from . import c14_query, c14_store
+    ctx.guarded('native partial-store battery', lambda: c14_store.battery(ctx, 'native partial-store battery', 'tpe/entities.rs: partial stores vs the concrete authorizer', 'native partial-store battery'))
     ctx.guarded('native permission-query battery', lambda: c14_query.battery(ctx, 'native permission-query battery', 'api/tpe.rs: query_resource / query_principal vs enumeration', 'native permission-query battery'))
-    ctx.bounds += [f'permission queries (cedar-policy/src/api/tpe.rs from the cedar-policy crate dump): query_resource / query_principal over stores of 0..{3 if ctx.tier == "thorough" else 2} entities, query_action over 0..{3 if ctx.tier == "thorough" else 2} applicable actions, '
+    ctx.bounds += [f'partial stores (tpe/entities.rs): from_entities_map with every outcome of its four steps and either flag; from_entities and from_json_value with free deserialization / parsing / duplicate outcomes; '
+                   f'native battery: {len(c14_store.STORE_POLS) * 2} (policy, principal) cases over a three-level hierarchy given with direct parents only, through from_partial_entities / from_json_value / from_concrete',
+                   f'permission queries (cedar-policy/src/api/tpe.rs from the cedar-policy crate dump): query_resource / query_principal over stores of 0..{3 if ctx.tier == "thorough" else 2} entities, query_action over 0..{3 if ctx.tier == "thorough" else 2} applicable actions, '
                    f'every outcome of the TPE run, the type test and the concrete authorizations symbolic; native battery: {len(c14_query.QUERY_CASES)} resource / principal queries against enumeration with the concrete authorizer',
                    'classification step: one loop iteration from an arbitrary state over every Residual shape (Concrete any Value / Error / Partial) and effect; decision table: all bucket-emptiness states, completions at bucket granularity']
     ctx.assumptions += ['Iterator::next, ResidualPolicy getters, HashMap/HashSet::{insert,is_empty,iter}, PolicySet::add, Policy::{effect,id,annotations_arc}, Expr::from(Residual): environment stubs / uninterpreted functions',
@@ -289,8 +292,10 @@ def run(ctx):
                         'can_error_assuming_well_formed: per-node table with the recursive calls as free booleans; PartialEntity::check_consistency: map / set equalities as free booleans',
                         'permission queries: PolicySet::tpe, PartialEntities::from_concrete, TpeResponse::{decision, policy_set}, Authorizer::is_authorized, the query-request accessors and entity accessors are environment stubs '
                         '(that a definite TPE decision and the residual policy set are right is the first half of this property, decided above at the response level and otherwise outside)',
+                        'partial stores: entity validation, validate_concrete_ancestors_concrete, compute_tc (what it computes is C04), insert_actions, collect_unique, serde and parse_ejson are stubs with free outcomes, logged in call order',
                         'simplification rules of tpe::Evaluator::interpret and PartialRequest consistency are NOT covered']
     return ctx.finish('Solver-decided response table and views of the TPE response, executed from the MIR of the current tree: classification of residual policies into the eight bucket sets (and into the residual map), '
                       'completion-quantified decision table, reason(), the ResidualPolicy -> Policy conversion, that policy_set() presents the residuals (views agree); and the permission queries of the public API: '
                       'query_resource / query_principal return exactly the entities of the requested type that are allowed (all on a definite Allow, none on Deny, by concrete authorization against the residual policy set when undecided), '
-                      'query_action returns every applicable action whose TPE decision is not Deny, labelled with that decision.')
+                      'query_action returns every applicable action whose TPE decision is not Deny, labelled with that decision; and that every constructor of a partial entity store from caller-given parents closes the ancestor relation '
+                      '(from_entities_map with the flag computes the closure before anything else uses the store; from_entities / from_json_value pass the flag).')
